@@ -339,7 +339,25 @@ func runC20(c *Ctx) {
 		}
 		c.Check("C20.S1", "var:"+short(g.String()), ok, g.Pos(), fmt.Sprintf("package-level variable %s (%s) is assigned only during package initialisation or under its mutex %v", short(g.String()), typeShort(g.Type().(*types.Pointer).Elem()), where))
 	}
-	c.Min("C20.S1", 20)
+	// package-level variables of other packages (third-party and standard library switches) are shared by every user
+	// of that package in the process: module code never assigns them
+	nForeign := 0
+	for _, f := range c.Funcs {
+		forEachInstr(f, func(in ssa.Instruction) {
+			st, isSt := in.(*ssa.Store)
+			if !isSt {
+				return
+			}
+			g, isG := st.Addr.(*ssa.Global)
+			if !isG || g.Pkg == nil || strings.HasPrefix(g.Pkg.Pkg.Path(), modPath) {
+				return
+			}
+			nForeign++
+			c.Check("C20.S1", "foreign-var:"+short(f.String())+"="+g.String(), false, st.Pos(), fmt.Sprintf("%s assigns %s, a package-level variable of another package: every goroutine using that package sees the change (and the write races with their reads)", short(f.String()), g.String()))
+		})
+	}
+	c.Check("C20.S1", "no-assignment-to-foreign-package-variables", nForeign == 0, 0, fmt.Sprintf("%d module functions scanned: none assigns a package-level variable of a third-party or standard-library package", len(c.Funcs)))
+	c.Min("C20.S1", 21)
 
 	// reads of guarded globals need the lock too
 	for _, f := range c.Funcs {
